@@ -230,6 +230,14 @@ def regressions(argv):
             bad += 1
         print('regression %-4s %-6s %-50s %s' % (fnd['id'], fnd['status'], rp, 'ok' if ok else
                                                  ('REPRODUCES AGAIN' if reproduced else 'does not reproduce')))
+    # scenarios on which the harness itself once raised a false alarm (DESIGN section 13): they must stay silent
+    for rp in sorted(glob.glob(os.path.join(HERE, 'harness_regressions', '*.json'))):
+        p = subprocess.run([os.path.join(HERE, 'check'), '--replay', rp], stdout=subprocess.PIPE,
+                           stderr=subprocess.PIPE, text=True, timeout=600)
+        ok = p.returncode == 0
+        if not ok:
+            bad += 1
+        print('regression %-4s %-6s %-50s %s' % ('-', 'silent', os.path.relpath(rp, HERE), 'ok' if ok else 'ALARMS AGAIN'))
     return 1 if bad else 0
 
 
